@@ -140,6 +140,131 @@ fn state_fields(repo: &str, out: &mut Out) {
     out.files.insert("StateFields".into(), body);
 }
 
+/// C18: the literals the emitted messages carry (versions, status tables, cipher suite) and the
+/// table `CoseKey::signature_algorithm` (curve -> COSE algorithm) with the curve identifiers
+fn emitted_literals(repo: &str, out: &mut Out) {
+    let mut body = String::from("From Coq Require Import ZArith.\n\n");
+    // ---- CoseKey::signature_algorithm: arms `CoseKey::K { crv: C::X, .. } => Some(Algorithm::A)`, `_ => None`
+    let ck = parse_file(&format!("{repo}/src/definitions/device_key/cose_key.rs"));
+    match find_impl_fn(&ck, "CoseKey", "signature_algorithm") {
+        Some(f) => match sig_alg_arms(&f.block) {
+            Ok((arms, default_none)) => {
+                let rows: Vec<String> = arms.iter().map(|(k, c, a)| format!("(\"{k}\"%string, \"{c}\"%string, \"{a}\"%string)")).collect();
+                writeln!(body, "(* cose_key.rs CoseKey::signature_algorithm: (key type, curve, algorithm) per arm, in source order *)\nDefinition gen_sig_alg_arms : list (String.string * String.string * String.string) :=\n  [{}].\n(* the match ends in `_ => None` *)\nDefinition gen_sig_alg_default_none : bool := {}.\n", rows.join(";\n   "), default_none).unwrap();
+                out.ok("sig_alg_table", &format!("{} arms", arms.len()));
+            }
+            Err(e) => out.fail("sig_alg_table", &e),
+        },
+        None => out.fail("sig_alg_table", "fn CoseKey::signature_algorithm not found"),
+    }
+    for (ty, def, item) in [("EC2Curve", "gen_ec2_curve_ids", "ec2_curve_ids"), ("OKPCurve", "gen_okp_curve_ids", "okp_curve_ids")] {
+        match find_trait_impl_fn(&ck, &format!("From<{ty}>"), "ciborium::Value", "from") {
+            Some(f) => {
+                let arms = match_arms_path_to_value_int(&f.block);
+                if arms.is_empty() {
+                    out.fail(item, "no `Curve::X => ciborium::Value::Integer(n.into())` arms");
+                } else {
+                    let rows: Vec<String> = arms.iter().map(|(k, v)| format!("(\"{k}\"%string, ({v})%Z)")).collect();
+                    writeln!(body, "(* cose_key.rs impl From<{ty}> for ciborium::Value *)\nDefinition {def} : list (String.string * Z) := [{}].\n", rows.join("; ")).unwrap();
+                    out.ok(item, &format!("{} rows", arms.len()));
+                }
+            }
+            None => out.fail(item, &format!("impl From<{ty}> for ciborium::Value not found")),
+        }
+    }
+    out.files.insert("SigAlgTable".into(), body);
+
+    // ---- versions and status tables
+    let mut body = String::new();
+    for (file, ty, def, item) in [
+        ("src/definitions/device_response.rs", "DeviceResponse", "gen_device_response_version", "device_response_version"),
+        ("src/definitions/device_request.rs", "DeviceRequest", "gen_device_request_version", "device_request_version"),
+    ] {
+        let f = parse_file(&format!("{repo}/{file}"));
+        match impl_const_str(&f, ty, "VERSION") {
+            Some(s) => {
+                let l: Vec<String> = s.as_bytes().iter().map(|x| x.to_string()).collect();
+                writeln!(body, "(* {file}: impl {ty} {{ const VERSION = {s:?} }} *)\nDefinition {def} : bytes := [{}].\n", l.join("; ")).unwrap();
+                out.ok(item, &s);
+            }
+            None => out.fail(item, &format!("impl {ty} {{ const VERSION: &str = \"..\" }} not found")),
+        }
+    }
+    let dr = parse_file(&format!("{repo}/src/definitions/device_response.rs"));
+    match find_impl_fn(&dr, "Status", "from") {
+        Some(f) => {
+            let arms = match_arms_path_to_int(&f.block);
+            if arms.is_empty() {
+                out.fail("device_response_status_table", "no `Status::X => n` arms");
+            } else {
+                let rows: Vec<String> = arms.iter().map(|(k, v)| format!("(\"{k}\"%string, {v})")).collect();
+                writeln!(body, "(* device_response.rs impl From<Status> for u64 *)\nDefinition gen_device_response_status : list (String.string * N) := [{}].\n", rows.join("; ")).unwrap();
+                out.ok("device_response_status_table", &format!("{} rows", arms.len()));
+            }
+        }
+        None => out.fail("device_response_status_table", "impl From<Status> for u64 not found in device_response.rs"),
+    }
+    let ss = parse_file(&format!("{repo}/src/definitions/session.rs"));
+    match find_impl_fn(&ss, "Status", "from") {
+        Some(f) => {
+            let arms = match_arms_path_to_int(&f.block);
+            if arms.is_empty() {
+                out.fail("session_data_status_table", "no `Status::X => n` arms");
+            } else {
+                let rows: Vec<String> = arms.iter().map(|(k, v)| format!("(\"{k}\"%string, {v})")).collect();
+                writeln!(body, "(* session.rs impl From<Status> for u64 *)\nDefinition gen_session_data_status : list (String.string * N) := [{}].\n", rows.join("; ")).unwrap();
+                out.ok("session_data_status_table", &format!("{} rows", arms.len()));
+            }
+        }
+        None => out.fail("session_data_status_table", "impl From<Status> for u64 not found in session.rs"),
+    }
+    // ---- SessionManagerInit::initialise: Security(<suite>, ..) and DeviceEngagement { version: "..".to_string(), .. }
+    let dev = parse_file(&format!("{repo}/src/presentation/device.rs"));
+    match find_impl_fn(&dev, "SessionManagerInit", "initialise") {
+        Some(f) => {
+            let (suite, version) = engagement_literals(&f.block);
+            match (suite, version) {
+                (Some(n), Some(v)) => {
+                    let l: Vec<String> = v.as_bytes().iter().map(|x| x.to_string()).collect();
+                    writeln!(body, "(* device.rs SessionManagerInit::initialise: Security(n, ..) and DeviceEngagement {{ version: \"..\".to_string(), .. }} *)\nDefinition gen_engagement_cipher_suite : N := {n}.\nDefinition gen_engagement_version : bytes := [{}].\n", l.join("; ")).unwrap();
+                    out.ok("engagement_literals", &format!("suite {n}, version {v}"));
+                }
+                _ => out.fail("engagement_literals", "expected Security(<int>, ..) and DeviceEngagement { version: \"..\".to_string(), .. } in initialise"),
+            }
+        }
+        None => out.fail("engagement_literals", "fn SessionManagerInit::initialise not found"),
+    }
+    // ---- reader.rs build_request: ItemsRequest { doc_type: "..".into(), .. }
+    let rdr = parse_file(&format!("{repo}/src/presentation/reader.rs"));
+    match find_impl_fn(&rdr, "SessionManager", "build_request") {
+        Some(f) => match struct_field_str(&f.block, "ItemsRequest", "doc_type") {
+            Some(s) => {
+                let l: Vec<String> = s.as_bytes().iter().map(|x| x.to_string()).collect();
+                writeln!(body, "(* reader.rs build_request: ItemsRequest {{ doc_type: {s:?}.into(), .. }} *)\nDefinition gen_request_doc_type : bytes := [{}].\n", l.join("; ")).unwrap();
+                out.ok("request_doc_type", &s);
+            }
+            None => out.fail("request_doc_type", "expected ItemsRequest { doc_type: \"..\".into(), .. } in build_request"),
+        },
+        None => out.fail("request_doc_type", "fn build_request not found in reader.rs"),
+    }
+    // ---- DeviceRetrievalMethod::transport_type
+    let de = parse_file(&format!("{repo}/src/definitions/device_engagement.rs"));
+    match find_impl_fn(&de, "DeviceRetrievalMethod", "transport_type") {
+        Some(f) => {
+            let arms = match_arms_path_to_int(&f.block);
+            if arms.is_empty() {
+                out.fail("transport_type_table", "no `Self::X(_) => n` arms");
+            } else {
+                let rows: Vec<String> = arms.iter().map(|(k, v)| format!("(\"{}\"%string, {v})", k.split('(').next().unwrap())).collect();
+                writeln!(body, "(* device_engagement.rs DeviceRetrievalMethod::transport_type *)\nDefinition gen_transport_type : list (String.string * N) := [{}].\n", rows.join("; ")).unwrap();
+                out.ok("transport_type_table", &format!("{} rows", arms.len()));
+            }
+        }
+        None => out.fail("transport_type_table", "fn DeviceRetrievalMethod::transport_type not found"),
+    }
+    out.files.insert("EmitLiterals".into(), body);
+}
+
 fn main() {
     let args: Vec<String> = std::env::args().collect();
     let repo = args.get(1).cloned().unwrap_or_else(|| "/repo".into());
@@ -149,6 +274,7 @@ fn main() {
     presentation_constants(&repo, &mut out);
     state_fields(&repo, &mut out);
     x509::x509_constants(&repo, &mut out);
+    emitted_literals(&repo, &mut out);
 
     let header = "(* GENERATED by /verif/translator from /repo's current source on every run. Do not edit. *)\nFrom Isomdl Require Import Lib.Bytes.\nOpen Scope N_scope.\n\n";
     write_if_changed(&format!("{outdir}/Constants.v"), &format!("{header}{}", out.constants));
